@@ -333,19 +333,24 @@ pub fn build(family: &str, tier: Tier) -> Vec<Cfg> {
         }
         "keepalive" => {
             for (client_k, server_k) in [(Some(0u16), None), (Some(1), None), (Some(2), None), (Some(3), None), (Some(5), None), (Some(30), Some(1u16)), (Some(0), Some(3)), (Some(7), Some(0)), (Some(65535), None)] {
-                for ping_ms in [100u64, 1000, 40_000_000] {
-                    if !thorough && ping_ms == 1000 && client_k != Some(3) { continue; }
+                let k = server_k.or(client_k).unwrap_or(0) as u64;
+                // ping timeouts: far below, at and around K/2 (the boundary the deadline rule switches on), far above
+                let mut pings: Vec<u64> = vec![100, 40_000_000];
+                if thorough && k > 0 && k < 100 { pings.extend([k * 500 - 1, k * 500, k * 500 + 1, 1]); } else if client_k == Some(3) { pings.push(1000); pings.push(1500); }
+                pings.sort(); pings.dedup();
+                for ping_ms in pings {
                     let mut c = Cfg::base("keepalive", &format!("k{:?}-s{:?}-ping{}", client_k, server_k, ping_ms));
                     c.keep_alive = client_k; c.connack.server_keep_alive = server_k;
                     c.ping_timeout = Duration::from_millis(ping_ms);
                     c.submits = vec![spec("pub1", publish("t", 1)), spec("pub0", publish("t", 0))];
-                    c.max_submits = if thorough { 2 } else { 1 };
+                    c.max_submits = if thorough { 3 } else { 2 };
                     c.max_conns = 1;
-                    c.budget = 2;
-                    c.max_depth = 18;
+                    c.budget = if thorough { 3 } else { 2 };
+                    c.max_depth = if thorough { 28 } else { 22 };
                     c.allow.tick_before = true;
                     c.allow.reorder = true;
-                    c.allow.idle_ticks = vec![400];
+                    c.allow.idle_ticks = if thorough { vec![400, 1100] } else { vec![400] };
+                    c.allow.split_reads = thorough;
                     c.clock = Clock::Prompt;
                     out.push(c);
                 }
